@@ -925,3 +925,17 @@ Proof. destruct m; cbn; split; intros H; try reflexivity; try discriminate. Qed.
 
 Theorem nodir_other_ok : cli_run_nodir CClean = true /\ cli_run_nodir CEnv = true.
 Proof. split; reflexivity. Qed.
+
+(* ------------------------------------------------------ temporary directory *)
+
+Theorem run_env_tmpdir_independent c now off tmp1 tmp2 t :
+  cli_run_env c now off tmp1 t = cli_run_env c now off tmp2 t.
+Proof. reflexivity. Qed.
+
+(* wherever TMPDIR points, a mode command that has to write succeeds and the
+   requested mode with the UTC date is read back *)
+Theorem mode_cmd_sets_any_tmpdir m now off tmp t : in_instant_range now ->
+  fst (cli_read_mode t) <> mode_str m -> mode_is_dir t = false ->
+  snd (cli_run_env (CMode m) now off tmp t) = true /\
+  cli_read_mode (fst (cli_run_env (CMode m) now off tmp t)) = (mode_str m, Some (now / 86400)%Z).
+Proof. unfold cli_run_env. apply mode_cmd_records_utc_date. Qed.
